@@ -767,10 +767,34 @@ def stream_to_file(off):
     return off // mrl.FILE, off % mrl.FILE
 
 
+def inphase_batch_history(rng):
+    """one batch whose items all have the same size d, d dividing the payload capacity of a full
+    block, long enough to have Middle frames: losing exactly one Middle frame leaves a buffer that
+    still parses"""
+    cap = mrl.B - 7
+    divs = [d for d in range(13, 400) if cap % d == 0] or [cap]
+    d = rng.choice(divs)
+    n = (3 * mrl.B) // d + rng.randrange(5, 40)
+    g = HistGen(rng, policy="af", nqueues=1)
+    g.names = ["=q"]
+    g.cmds.append("create =q"); g.ref.create("=q"); g.note_write("pos", "=q")
+    pls = ["%d:%d" % (d - 12, 500 + k) for k in range(n)]
+    g.ref.append("=q", None, pls)
+    g.cmds.append("append =q - " + " ".join(pls))
+    g.note_write("append", "=q", [d - 12] * n)
+    g.batch = (len(g.cmds) - 1, "=q", 0, pls)
+    g.inphase = True
+    return g
+
+
 class DamageBase(TwoPass):
     policies = ["af"]
 
     def base_history(self, rng, i):
+        if i % 8 == 0:
+            g = inphase_batch_history(rng)
+            self.stats["inphase_batches"] = self.stats.get("inphase_batches", 0) + 1
+            return g.cmds + ["drop"], g
         g = HistGen(rng, policy="af", max_payload=40000)
         g.run(rng.randrange(6, 22), weights={"create": 8, "delete": 7, "append": 50, "truncate": 24, "persist": 1, "restart": 3})
         self.merge_stats(g.stats)
@@ -840,6 +864,11 @@ class C08(DamageBase):
                     frames.append((f, o, n))
         if not frames:
             return out
+        if getattr(g, "inphase", False):
+            big = [fr for fr in frames if fr[2] == mrl.B - 7]
+            for k, (f, o, n) in enumerate(big[:6]):
+                out.append(("%s_m%d" % (bid, k), cmds + ["damage %d %d x%02x" % (f, o + 7 + rng.randrange(0, n), rng.randrange(1, 256)), "open af"]))
+                self.stats["damage_images"] = self.stats.get("damage_images", 0) + 1
         for k in range(self.per_base()):
             dmg = []
             for _ in range(rng.choice([1, 1, 1, 2, 3])):
